@@ -1,4 +1,5 @@
 // slice `formation`: TrainFormation order semantics (C13 last sentence), capacity / seats sums (C09)
+#![feature(allocator_api)]
 use vstd::prelude::*;
 use std::ops::Add;
 use std::ops::Sub;
